@@ -23,6 +23,7 @@ import rslex          # noqa: E402
 import rsparse        # noqa: E402
 import limbir         # noqa: E402
 import alggen         # noqa: E402
+import vecir          # noqa: E402
 import inventory      # noqa: E402
 from limbir import ItemSpec, TransErr   # noqa: E402
 
@@ -42,12 +43,81 @@ F_X25519 = 'x25519-dalek/src/x25519.rs'
 
 
 class ModuleSpec(object):
-    def __init__(self, name, src, self_type, consts, items):
+    def __init__(self, name, src, self_type, consts, items, vec=None):
         self.name = name
         self.src = src
         self.self_type = self_type
         self.consts = consts
         self.items = items
+        self.vec = vec      # None | dict(extra=[files], imports={use path: file}, wrappers=file, expand=fn)
+
+
+F_AVX2_FIELD = CD + 'backend/vector/avx2/field.rs'
+F_PACKED_SIMD = CD + 'backend/vector/packed_simd.rs'
+
+
+def enum_variants(sf, name):
+    for it in sf.walk():
+        if it.kind == 'enum' and it.name == name:
+            toks = it.toks
+            i = it.start
+            while toks[i][1] != '{':
+                i += 1
+            end = rslex.match_delim(toks, i) - 1
+            out = []
+            j = i + 1
+            while j < end:
+                t = toks[j]
+                if t[0] == 'p' and t[1] == '#':
+                    j = rslex.match_delim(toks, j + 1)
+                    continue
+                if t[0] == 'id':
+                    out.append(t[1])
+                    j += 1
+                    if j < end and toks[j][1] in ('(', '{'):
+                        raise TransErr('enum %s has variants with fields' % name)
+                    if j < end and toks[j][1] == '=':
+                        raise TransErr('enum %s has explicit discriminants' % name)
+                    continue
+                j += 1
+            return out
+    raise TransErr('enum %s not found in %s' % (name, sf.relname))
+
+
+def enum_arg(enum, variant):
+    return lambda tr: vecir.EnumV(enum, variant)
+
+
+def avx2_items(srcs):
+    sf = srcs.get(F_AVX2_FIELD)
+    items = [
+        ItemSpec('new', 'new', expect=(20, 40), note='inputs: the limbs of x0, x1, x2, x3 (FieldElement51)'),
+        ItemSpec('split', 'split', expect=(40, 20), note='outputs: the limbs of the four FieldElement51'),
+        ItemSpec('negate_lazy', 'negate_lazy', expect=(40, 40)),
+        ItemSpec('diff_sum', 'diff_sum', expect=(40, 40)),
+        ItemSpec('reduce', 'reduce', expect=(40, 40)),
+        ItemSpec('neg', 'neg', trait='Neg', expect=(40, 40)),
+        ItemSpec('add', 'add', trait='Add', expect=(80, 40)),
+        ItemSpec('mul_consts', 'mul', trait='Mul', trait_arg='(u32,u32,u32,u32)', expect=(44, 40),
+                 note='inputs: the 40 lanes then the four u32 scalars'),
+        ItemSpec('square_and_negate_D', 'square_and_negate_D', expect=(40, 40)),
+        ItemSpec('mul', 'mul', trait='Mul', trait_arg='FieldElement2625x4', self_ref=True, expect=(80, 40)),
+        ItemSpec('reduce64', 'reduce64', expect=(40, 40), note='inputs: z[0..10] as 10 x 4 u64 lanes'),
+        ItemSpec('conditional_select', 'conditional_select', trait='ConditionallySelectable', expect=(81, 40),
+                 note='inputs: a, b, then the choice byte (asserted < 2); the xor/mask idiom '
+                      '`a ^ (mask & (a ^ b))` with mask = (-(c as i32)) as u32 is emitted as `sel c a b`'),
+        ItemSpec('conditional_assign', 'conditional_assign', trait='ConditionallySelectable', expect=(81, 40),
+                 note='inputs: self, other, then the choice byte (asserted < 2)'),
+    ]
+    for v in enum_variants(sf, 'Shuffle'):
+        items.append(ItemSpec('shuffle_' + v, 'shuffle', expect=(40, 40),
+                              fixed_args={'control': enum_arg('Shuffle', v)},
+                              note='shuffle(Shuffle::%s)' % v))
+    for v in enum_variants(sf, 'Lanes'):
+        items.append(ItemSpec('blend_' + v, 'blend', expect=(80, 40),
+                              fixed_args={'control': enum_arg('Lanes', v)},
+                              note='blend(other, Lanes::%s): inputs self then other' % v))
+    return items
 
 
 def scalar_items(nl, nw):
@@ -103,6 +173,10 @@ MODULES = [
     ModuleSpec('Clamp', F_SCALAR, None, None, [
         ItemSpec('clamp_integer', 'clamp_integer', expect=(32, 32), toplevel=True),
     ]),
+    ModuleSpec('Avx2Field', F_AVX2_FIELD, 'FieldElement2625x4', None, None,
+               vec=dict(extra=[F_FIELD64, F_AVX2],
+                        imports={('crate', 'backend', 'vector', 'avx2', 'constants'): F_AVX2},
+                        wrappers=F_PACKED_SIMD, enums=['Shuffle', 'Lanes'], expand=avx2_items)),
 ]
 
 # (namespace, file, mode)
@@ -118,7 +192,7 @@ CONST_SOURCES = [
 ]
 
 ALL_FILES = [F_FIELD64, F_FIELD32, F_SCALAR64, F_SCALAR32, F_CONST64, F_CONST32, F_AVX2, F_IFMA,
-             F_TOPCONST, F_SCALAR, F_EDCONST, F_X25519] + alggen.ALG_FILES
+             F_TOPCONST, F_SCALAR, F_EDCONST, F_X25519] + alggen.ALG_FILES + [F_AVX2_FIELD]
 
 HEADER = ('-- GENERATED by /verif/tools/rs2lean/rs2lean.py from the Rust sources -- DO NOT EDIT.\n'
           '-- Regenerated on every run; edits will be overwritten.\n')
@@ -243,7 +317,14 @@ def translate_item(srcs, mod, spec):
     try:
         main = srcs.get(mod.src)
         cfile = srcs.get(mod.consts) if mod.consts else None
-        mctx = limbir.ModuleCtx(main, cfile)
+        wrap_items = []
+        if mod.vec:
+            mctx = limbir.ModuleCtx(main, cfile, [srcs.get(f) for f in mod.vec['extra']])
+            wsf = srcs.get(mod.vec['wrappers'])
+            vecir.check_packed_simd(wsf)
+            wrap_items = [it for it in wsf.items if it.kind in ('macro', 'impl')]
+        else:
+            mctx = limbir.ModuleCtx(main, cfile)
         if spec.toplevel:
             cands = [it for it in main.items if it.kind == 'fn' and it.name == spec.root and not it.is_test]
             if len(cands) != 1:
@@ -252,14 +333,20 @@ def translate_item(srcs, mod, spec):
         else:
             if mod.self_type not in mctx.structs:
                 raise TransErr('struct %s not found in %s' % (mod.self_type, mod.src))
-            r = mctx.find_impl_member(mod.self_type, spec.root, trait=spec.trait)
+            r = mctx.find_impl_member(mod.self_type, spec.root, trait=spec.trait, trait_arg=spec.trait_arg,
+                                      self_ref=spec.self_ref)
             if r is None:
                 where = ('impl %s for %s' % (spec.trait, mod.self_type)) if spec.trait else ('impl ' + mod.self_type)
                 raise TransErr('fn %s not found in `%s` of %s (missing or renamed)' % (spec.root, where, mod.src))
             item, imp, file = r
         res['root'] = item.qualname()
         res['line'] = item.line
-        tr = limbir.Translator(mctx, spec, mod.self_type)
+        if mod.vec:
+            enums = dict((en, enum_variants(main, en)) for en in mod.vec['enums'])
+            imports = dict((k, srcs.get(f)) for k, f in mod.vec['imports'].items())
+            tr = vecir.VecTranslator(mctx, spec, mod.self_type, enums, imports)
+        else:
+            tr = limbir.Translator(mctx, spec, mod.self_type)
         nin, body, outs, out_tys = tr.translate(item, imp, file)
         res['n_in'] = nin
         res['n_out'] = len(outs)
@@ -272,7 +359,10 @@ def translate_item(srcs, mod, spec):
         res['consts'] = [it.qualname() for it in tr.consts_used]
         res['notes'] = tr.notes
         res['discarded_prelude_stmts'] = tr.b.discarded
-        res['sha256'] = token_hash(tr.visited + tr.consts_used)
+        res['sha256'] = token_hash(tr.visited + tr.consts_used + wrap_items)
+        if wrap_items:
+            res['notes'] = res['notes'] + ['hash includes the wrapper definitions of ' + mod.vec['wrappers']
+                                           + ' (translator knowledge, checked against the source)']
         if spec.expect is not None and (nin, len(outs)) != spec.expect:
             raise TransErr('shape mismatch: translated %d in / %d out, expected %d in / %d out'
                            % (nin, len(outs), spec.expect[0], spec.expect[1]))
@@ -662,6 +752,12 @@ def run(repo, outdir, quiet=False):
     # kernels
     for mod in MODULES:
         rs = []
+        if mod.vec and mod.items is None:
+            try:
+                mod.items = mod.vec['expand'](srcs)
+            except ITEM_ERRORS as ex:
+                mod.items = []
+                sys.stderr.write('rs2lean: FAILED %s: cannot enumerate items: %s\n' % (mod.name, ex))
         for spec in mod.items:
             rs.append(translate_item(srcs, mod, spec))
         # same_as check
@@ -756,7 +852,7 @@ def run(repo, outdir, quiet=False):
     written.extend(inv_written)
 
     # All.lean
-    mods = [m.name for m in MODULES] + ['Consts'] + [m.name for m in alggen.ALG_MODULES] + ['Inventory']
+    mods = [m.name for m in MODULES] + ['Consts'] + [m.name for m in alggen.ALG_MODULES] + ['Inventory', 'BranchInventory']
     alltext = HEADER + ''.join('import Dalek.Gen.%s\n' % m for m in mods)
     p = os.path.join(outdir, 'All.lean')
     if write_if_changed(p, alltext):
@@ -820,7 +916,7 @@ def run(repo, outdir, quiet=False):
         'uncovered_fns': uncovered,
         'files': sorted(os.path.basename(x) for x in
                         [m.name + '.lean' for m in MODULES] + ['Consts.lean', 'All.lean', 'AllSh.lean',
-                                                               'gen_manifest.json', 'Inventory.lean']
+                                                               'gen_manifest.json', 'Inventory.lean', 'BranchInventory.lean']
                         + [m.name + '.lean' for m in alggen.ALG_MODULES]
                         + [m.name + 'Sh.lean' for m in alggen.ALG_MODULES]),
     }
